@@ -122,13 +122,13 @@ theorem C07_finCode (ver rc : Nat) :
     simp [this]
   · simp [h, g]
 
-/-- the reason code of one filter: 0x91 identifier in use (NOT downgraded for MQTT 3 — the `continue` in
-    `processSubscribe` skips the downgrade), else 0x8F invalid filter, 0x82 No Local on a shared subscription, 0x87
+/-- the reason code of one filter: 0x91 identifier in use (since fix e36320d downgraded for MQTT 3 like the other
+    refusals; before, the `continue` in `processSubscribe` skipped the downgrade), else 0x8F invalid filter, 0x82 No Local on a shared subscription, 0x87
     denied (0x80 when `ObscureNotAuthorized`), else the granted QoS `min requested maximumQos` (`C04_suback`) — each
     passed through the MQTT 3 downgrade `finCode` (failure codes become 0x80) -/
 theorem C07_suback_code (s : Server) (i id : Nat) (sub : Sub) :
     subCode s i id sub =
-      if (flGet (getObj s i) id).isSome then 0x91
+      if (flGet (getObj s i) id).isSome then finCode (getObj s i).ver 0x91
       else if !isValidFilter sub.filter false then finCode (getObj s i).ver 0x8F
       else if sub.noLocal && isSharedFilter sub.filter then finCode (getObj s i).ver 0x82
       else if !aclOk s (getObj s i).id sub.filter false then
